@@ -5,6 +5,7 @@ import (
 	"testing"
 
 	geom "github.com/twpayne/go-geom"
+	"github.com/twpayne/go-geom/xy"
 
 	"verifharness/internal/ev"
 	"verifharness/internal/run"
@@ -87,3 +88,71 @@ func TestExhaustiveBig(t *testing.T) {
 }
 
 func TestRegressBig(t *testing.T) { run.Regress(t, bigSpec) }
+
+// SizeCase: n points on the parabola y = x^2 in a fixed pseudo-random order; every one
+// of them is an extreme point, so the hull ring has exactly n distinct vertices.
+type SizeCase struct {
+	N int `json:"n"`
+}
+
+func propSize(c SizeCase) error {
+	b := BigCase{N: c.N, Via: "flat", Layout: int(geom.XY)}
+	cs := expandBig(b)
+	flat := flatOf(cs)
+	before := append([]float64{}, flat...)
+	h := xy.ConvexHullFlat(geom.XY, flat)
+	for i := range flat {
+		if flat[i] != before[i] {
+			return fmt.Errorf("%d points: input modified at ordinate %d", c.N, i)
+		}
+	}
+	pg, ok := h.(*geom.Polygon)
+	if !ok {
+		return fmt.Errorf("%d points on a parabola: hull is a %T", c.N, h)
+	}
+	f := pg.FlatCoords()
+	if len(f) != 2*(c.N+1) {
+		return fmt.Errorf("%d points on a parabola (all of them extreme): the hull ring has %d coordinates, want %d", c.N, len(f)/2, c.N+1)
+	}
+	var sum, want float64
+	for i := 0; i+2 < len(f); i += 2 {
+		if f[i+1] != f[i]*f[i] {
+			return fmt.Errorf("%d points: hull vertex (%v, %v) is not an input point", c.N, f[i], f[i+1])
+		}
+		sum += f[i]
+	}
+	for _, p := range cs.Pts {
+		want += float64(p[0])
+	}
+	if sum != want {
+		return fmt.Errorf("%d points on a parabola: the hull vertices are not the input points (sum of x %v, want %v)", c.N, sum, want)
+	}
+	return nil
+}
+
+var sizeSpec = run.Spec[SizeCase]{ID: "C13", Name: "size", Prop: propSize, Classify: func(c SizeCase) ([]string, bool) {
+	return []string{"size-sweep"}, true
+}}
+
+// TestExhaustiveSizes runs every number of points from 1 000 to 8 200 (thorough: to
+// 33 000): whatever the size at which an implementation changes its ways - a power of
+// two, a multiple of a block length or of a stride - it is in the range.
+func TestExhaustiveSizes(t *testing.T) {
+	shard, shards := run.Shard()
+	hi := 8200
+	if run.Thorough() {
+		hi = 33000
+	}
+	for n := 1000; n <= hi; n++ {
+		if n%shards != shard {
+			continue
+		}
+		c := SizeCase{N: n}
+		ev.Default.CaseHash(uint64(n), "size-sweep", true, func() any { return c })
+		if !run.One(t, sizeSpec, c) {
+			return
+		}
+	}
+}
+
+func TestRegressSizes(t *testing.T) { run.Regress(t, sizeSpec) }
